@@ -843,8 +843,8 @@ static void caseHull(Rng& r, Ctx& c)
   {
     // the hull construction was seen not to terminate on small-extent data: try it in a child first
     Db* dbp = db.get();
-    int g   = runGuarded([dbp, dilate]() { Polygons* p = Polygons::createFromDb(dbp, dilate); (void)p; }, 10);
-    if (!c.truth("hull-build", "C20:hull:small-scale", g != 1, "Polygons::createFromDb does not return (stopped after 10 s)")) return;
+    int g   = runGuarded([dbp, dilate]() { Polygons* p = Polygons::createFromDb(dbp, dilate); (void)p; }, 5);
+    if (!c.truth("hull-build", "C20:hull:small-scale", g != 1, "Polygons::createFromDb does not return (stopped after 5 s)")) return;
     if (!c.truth("hull-build", "C20:hull:small-scale", g != 2, "Polygons::createFromDb aborts the process")) return;
   }
   std::unique_ptr<Polygons> pol(Polygons::createFromDb(db.get(), dilate));
